@@ -248,7 +248,11 @@ def c05(run):
          ("chaos2", ["map:kv24:fewpos:24:900:iter:chaos=1", "map:kv16:max:16:700:two:chaos=1", "map:kv16:zero:14:500:entry:chaoseq=1"]),
          ("chaosset", ["set:k8t:zero:16:800:set:chaos=1", "set:k8t:collide:16:600:setalg:chaoseq=1", "set:k8t:zero:14:500:setalg:chaos=1,chaoseq=1"]),
          ("chaostable", ["table:te24:zero:16:800:table:chaos=1", "table:te24:collide:16:600:table:chaoseq=1", "table:te24:zero:14:500:table:chaos=1,chaoseq=1"]),
-         {"name": "chaosgoals_w16", "backend": "sse2", "args": ["replay", "--seed", "@SEED@", "corpus/map_w16_chaos.ndjson"]}],
+         {"name": "chaosgoals_w16", "backend": "sse2", "args": ["replay", "--seed", "@SEED@", "corpus/map_w16_chaos.ndjson"]},
+         # lawful runs in which only crashes, unexpected panics and the safety subset count for C05: zero-sized elements, and the
+         # goal scenarios of the all-colliding plan (incl. clone_from between different sizes with equal capacity())
+         ("zst", ["table:t0:zero:1:800:tablezst", "table:t0a:zero:1:400:tablezst"], {"module": "HbZstTrace.tla", "cfg": "HbZstTrace.cfg"}),
+         {"name": "goals_w16_p1", "backend": "sse2", "args": ["replay", "--seed", "@SEED@", "corpus/map_w16_goals_p1.ndjson"]}],
         [("chaos3", ["map:kv16:zero:16:6000:wide:chaos=1", "map:kv200:collide:20:3000:wide:chaos=1,chaoseq=1", "map:kva64:zero:14:2000:cap:chaos=1"]),
          ("chaosg", ["map:kv16:zero:16:3000:wide:chaos=1", "map:kv16:collide:20:2000:entry:chaoseq=1"], G)],
         "model: from the unallocated table and from lawfully built tombstone-saturated tables, every operation under EVERY sequence of hasher answers "
